@@ -723,7 +723,48 @@ func (e *Engine) installExternals() {
 	}
 	conc1("strings.ToLower", strings.ToLower)
 	conc1("strings.ToUpper", strings.ToUpper)
-	conc1("strings.TrimSpace", strings.TrimSpace)
+	// strings.TrimSpace on a symbolic string: strip up to three leading and three trailing ASCII
+	// white-space characters by case split (longer runs, and Unicode spaces, are outside the bound)
+	x["strings.TrimSpace"] = func(fr *frame, a []Value) Value {
+		v := normStr(a[0])
+		if cs, ok := v.(string); ok {
+			return strings.TrimSpace(cs)
+		}
+		cur := e.strTerm(v)
+		isWS := func(c *Term) *Term {
+			var alts []*Term
+			for _, w := range []string{" ", "\t", "\n", "\r"} {
+				alts = append(alts, e.ts.Eq(c, e.ts.StrC(w)))
+			}
+			return e.ts.Or(alts...)
+		}
+		one := e.ts.Int(1)
+		for side := 0; side < 2; side++ {
+			for k := 0; ; k++ {
+				n := e.ts.StrLen(cur)
+				var at *Term
+				if side == 0 {
+					at = e.ts.mk(sortStr, "str.at", cur, e.ts.Int(0))
+				} else {
+					at = e.ts.mk(sortStr, "str.at", cur, e.ts.mk(sortInt, "-", n, one))
+				}
+				has := e.simplify(e.ts.And(e.ts.mk(sortBool, "<=", one, n), isWS(at)), nil)
+				if k == 3 {
+					e.assume(e.notV(has)) // stated bound: at most three white-space characters per side
+					break
+				}
+				if !e.branch(has) {
+					break
+				}
+				if side == 0 {
+					cur = e.ts.mk(sortStr, "str.substr", cur, one, e.ts.mk(sortInt, "-", n, one))
+				} else {
+					cur = e.ts.mk(sortStr, "str.substr", cur, e.ts.Int(0), e.ts.mk(sortInt, "-", n, one))
+				}
+			}
+		}
+		return e.simplify(cur, nil)
+	}
 	conc1("strings.Title", strings.Title)
 
 	// ---- errors (New/Is/Unwrap are interpreted from source)
